@@ -3,6 +3,8 @@ import BoltonsVerif.C10.Prio
 import BoltonsVerif.C10.Heap
 import BoltonsVerif.C10.DriverCorrect
 import BoltonsVerif.C10.Plain
+import BoltonsVerif.C10.Round
+import BoltonsVerif.C10.Pure
 /-
 C10 — property theorems (statements + short derivations from Proofs/Queue/Backends.lean)
 and non-vacuity examples.
@@ -292,6 +294,24 @@ theorem empty_pop_default {β : Type} {B : Backend T β} {wf : β → Prop}
     | none => exact absurd ((best_eq_none _).mp hb) h
     | some x => exact ⟨⟨x.1, rfl⟩, ⟨x.1, rfl⟩⟩
 
+/-- `peek` announces exactly what the next `pop` returns (task, default or IndexError) -/
+theorem peek_agrees_with_pop {β : Type} {B : Backend T β} {wf : β → Prop}
+    {content : β → List (Entry T)} (L : Lawful B wf content) (ops : List (Op T)) (d : Option Nat) :
+    nextOut B ops (.peek d) = nextOut B ops (.pop d) := by
+  rw [nextOut_eq_spec L, nextOut_eq_spec L]
+  simp only [Spec.step]
+  cases best (live ops) <;> rfl
+
+/-- `peek` and `len` are pure observations although `peek` culls tombstones from the backend: deleting
+    every `peek` / `len` call from a history changes neither the live tasks nor the return value of any
+    remaining call (`add`, `remove`, `pop`) -/
+theorem peek_and_len_are_unobservable {β : Type} {B : Backend T β} {wf : β → Prop}
+    {content : β → List (Entry T)} (L : Lawful B wf content) (ops : List (Op T)) :
+    (PQ.run B (ops.filter isUpdate)).2 = ((ops.zip (PQ.run B ops).2).filter updOut).map Prod.snd ∧
+    live (ops.filter isUpdate) = live ops := by
+  rw [(run_sim L _).2.2, (run_sim L _).2.2]
+  exact ⟨(spec_strip ops []).2, (spec_strip ops []).1⟩
+
 /-- `len` is the number of live tasks -/
 theorem len_eq_live {β : Type} {B : Backend T β} {wf : β → Prop}
     {content : β → List (Entry T)} (L : Lawful B wf content) (ops : List (Op T)) :
@@ -484,6 +504,28 @@ theorem normalize_sound (limit : Nat → Nat) (g : Dy → Int) (ops : List (ROp 
     rw [normalize_orders_exactly ops a ha b hb, hg a ha b hb]
   exact ⟨by rw [(run_sim (sorted_lawful limit) _).2.2, key], by rw [(run_sim listHeap_lawful _).2.2, key]⟩
 
+/-- CPython's `int -> float` conversion (53 significant bits, round half to even), as the default key
+    applies it to int priorities of ANY size, is monotone: a larger int never becomes a smaller float.
+    Beyond 2^53 distinct ints may collapse into one float (then first-in first-out decides among them),
+    but the order of two int priorities is never inverted -/
+theorem default_key_monotone_on_ints (a b : Int) (h : a ≤ b) :
+    ¬ Dy.lt (PyPrio.int b).eff (PyPrio.int a).eff := by
+  have key : ∀ z : Int, (PyPrio.int z).eff = ⟨roundInt53 z, 0⟩ := by
+    intro z
+    by_cases hz : z = 0
+    · subst hz; decide
+    · simp [PyPrio.eff, PyPrio.or0, PyPrio.truthy, PyPrio.toFloat, hz]
+  rw [key a, key b]
+  have := roundInt53_mono a b h
+  simp only [Dy.lt, Nat.pow_zero, Int.mul_one]
+  omega
+
+/-- the conversion itself, on naturals and on ints -/
+theorem int_to_float_rounding_monotone :
+    (∀ n m : Nat, n ≤ m → roundNat53 n ≤ roundNat53 m) ∧
+    (∀ a b : Int, a ≤ b → roundInt53 a ≤ roundInt53 b) :=
+  ⟨roundNat53_mono, roundInt53_mono⟩
+
 /-- the default key `float(priority or 0)`: `None`, `False`, `0`, `0.0`/`-0.0` are one priority, and
     `True`, `1`, `1.0` are one priority; ints up to 2^53 convert exactly -/
 theorem default_key_aliases :
@@ -562,6 +604,12 @@ example : (PQ.run (sortedBackend (fun _ => 2)) (exOps.take 6)).1.pq.lists
       = (PQ.run plainBackend (exOps.take 6)).1.pq ∧
     (PQ.run plainBackend exOps).2 = (PQ.run (sortedBackend (fun _ => 2)) exOps).2 := by decide
 
+/-- the history without its `len` / `peek` calls: same answers from the other calls -/
+example : exOps.length = 16 ∧ (exOps.filter isUpdate).length = 14 ∧
+    (PQ.run (sortedBackend (fun _ => 2)) (exOps.filter isUpdate)).2 =
+      [.none, .none, .none, .none, .none, .none, .none,
+       .task 3, .task 2, .task 5, .task 1, .indexError, .dflt 7, .keyError] := by decide
+
 /-- the backend really is split into several sub-lists in that history -/
 example : (PQ.run (sortedBackend (fun _ => 2)) (exOps.take 6)).1.pq.lists.length = 5 := by decide
 
@@ -589,6 +637,10 @@ def exRaw : List (ROp Nat Dy) :=
 example : maxExp exRaw = 1 := by decide
 example : (PQ.run (sortedBackend (fun _ => 2)) (normalize exRaw)).2.drop 6 =
     [.task 5, .task 6, .task 3, .task 4, .task 2, .task 1] := by decide +kernel
+/-- three consecutive ints beyond 2^53: the first two collapse, the order is kept -/
+example : (PyPrio.int (2 ^ 53 + 1)).eff = (PyPrio.int (2 ^ 53)).eff ∧
+    Dy.lt (PyPrio.int (2 ^ 53 + 1)).eff (PyPrio.int (2 ^ 53 + 2)).eff := by decide +kernel
+
 /-- int → float rounds half to even at 53 bits -/
 example : roundInt53 (2 ^ 53 + 1) = 2 ^ 53 ∧ roundInt53 (2 ^ 53 + 3) = 2 ^ 53 + 4 ∧
     roundInt53 (-(2 ^ 54 + 2)) = -(2 ^ 54) ∧ roundInt53 (2 ^ 54 + 6) = 2 ^ 54 + 8 ∧
